@@ -75,8 +75,9 @@ func (p *parser) parse() (e *expr.Expression, err error) {
 			}
 
 			// edge case for a single literal in the expression and a default field specified
-			if final.Op == expr.Literal && p.defaultField != "" {
-				final = expr.Expr(p.defaultField, expr.Equals, final.Left)
+			isTerm := final.Op == expr.Literal || final.Op == expr.Wild || final.Op == expr.Regexp
+			if isTerm && p.defaultField != "" {
+				final = expr.Eq(expr.Column(p.defaultField), final)
 			}
 
 			return final, nil
